@@ -401,11 +401,12 @@ func c03Sweep(w *fw.W, idx int) {
 	f := st.funs[k%len(st.funs)]
 	maxAr := f.nformals + 2
 	arity := (k / len(st.funs)) % (maxAr + 1)
+	// the watchdog is re-armed for every call: what must return promptly is ONE call,
+	// and an enumerating batch makes several hundred of them, many of which run a
+	// builtin up to the allocation cap
 	stop := c03Watch(w, idx, fmt.Sprintf("sweep %s:%s/%d", f.pkg, f.name, arity))
-	defer stop()
-	ctx, cancel := context.WithTimeout(context.Background(), 30*time.Second)
-	defer cancel()
-	rr := rt.New(rt.Opts{MaxSteps: 200_000, MaxAlloc: 1_000_000, MaxPhys: 2000})
+	defer func() { stop() }()
+	rr := rt.New(rt.Opts{MaxSteps: 200_000, MaxAlloc: 200_000, MaxPhys: 2000})
 	pool := c03Pool(rr, r)
 	p := rr.Env.Runtime.Registry.Package(f.pkg)
 	fn, ok := p.Symbol(f.name)
@@ -469,6 +470,9 @@ func c03Sweep(w *fw.W, idx int) {
 			desc[i] = fmt.Sprintf("#%d:%s", j, pool[j].Type)
 		}
 		w.Logf("call %s:%s %v", f.pkg, f.name, desc)
+		stop()
+		stop = c03Watch(w, idx, fmt.Sprintf("sweep %s:%s/%d call %d %v", f.pkg, f.name, arity, c, desc))
+		ctx, cancel := context.WithTimeout(context.Background(), 30*time.Second)
 		var v *lisp.LVal
 		var escaped any
 		func() {
@@ -485,6 +489,7 @@ func c03Sweep(w *fw.W, idx int) {
 				v = rr.Env.SpecialOpCall(fn, lisp.SExpr(args))
 			}
 		}()
+		cancel()
 		w.Eval(1)
 		if escaped != nil {
 			w.Violation(fmt.Sprintf("go-panic-from-builtin:%s:%s/%d", f.pkg, f.name, arity),
